@@ -45,7 +45,7 @@ void nmc_enumerate(const nmc::Tier& t, const nmc::Sink& emit) {
         // diagonal: offset in [-n,n], every ordered axis pair
         if (d >= 2) for (long a = -d; a < d; a++) for (long b = -d; b < d; b++) {
             long na = a < 0 ? a + d : a, nb = b < 0 ? b + d : b; if (na == nb) continue;
-            if ((a < 0) != (b < 0) && !t.thorough()) continue;
+            if ((a < 0) != (b < 0) && !t.thorough() && d > 2) continue;   // mixed-sign axis pairs: quick tier on 2-d sources, thorough tier everywhere (no class of arguments is thorough-only)
             long n = std::max(s[(size_t)na], s[(size_t)nb]);
             for (long off = -n; off <= n; off++) emit(Case("diagonal", {s, {off}, {a}, {b}}));
         }
